@@ -84,7 +84,8 @@ ColTerms(q) == CASE q.k = "Select" -> Cells(q.ch[2])
                  [] q.k = "SelectMany" -> ElemCells(q.ch[2])
                  [] q.k \in {"Where", "Root"} -> ColTerms(q.ch[1])
                  [] OTHER -> {}
-NCols(q) == LET rt == TypeOf(q, <<>>, [collClass |-> CollClass, collType |-> CollClass, decls |-> Decls, declared |-> {}]).e IN
+RowT(q) == TypeOf(q, <<>>, [collClass |-> CollClass, collType |-> CollClass, decls |-> Decls, declared |-> {}]).e
+NCols(q) == LET rt == RowT(q) IN
             IF rt.t \in {"tup", "dict"} THEN Len(rt.v) ELSE 1
 \* a column / label count mismatch in an explicit AsROOTTTree is an error
 \* arithmetic directly on a value whose declared C++ type is not one of int/float/double/bool
@@ -98,7 +99,10 @@ HasOpaqueArith(q) ==
   \/ /\ q.k \in {"Sum", "Min", "Max", "Aggregate"}
      /\ q.ch[1].k = "Select" /\ q.ch[1].ch[2].k = "Meth" /\ q.ch[1].ch[2].a \in OpaqueNames
   \/ \E i \in DOMAIN q.ch : HasOpaqueArith(q.ch[i])
+\* an explicit AsROOTTTree over rows that are dicts: the columns are named "by the dict keys, or by the
+\* names given to AsROOTTTree" - with both present the documentation does not say which: MAY
 Support(q) == IF q.k = "Root" /\ q.n # NCols(q.ch[1]) THEN "MUST_REJECT"
+              ELSE IF q.k = "Root" /\ RowT(q.ch[1]).t = "dict" THEN "MAY"
               ELSE IF HasOpaqueArith(q) THEN "MAY"
               ELSE IF \E c \in ColTerms(q) : IsVecTerm(c) THEN "MAY" ELSE "MUST_ACCEPT"
 
